@@ -1,7 +1,7 @@
 """C12 - answers leaving a route carry the request's identity and a correct error flag.
 
 Postcondition monitor on bromelia.bromelia.decorate_answer (the function every routed answer goes
-through; the message later placed on the worker's send queue is observed by C13)."""
+through) and on the message that reaches the connection worker after a route handler returned it (route stage)."""
 import random
 import time
 
@@ -13,7 +13,10 @@ RULE = ("typed request/answer pairs of every command (arguments generated as in 
         "over all 0..65535 on one pair, every code defined in result_codes.py / experimental_result_codes.py on every "
         "pair, random 32-bit codes; Session-Ids of every length residue, longer and shorter than the answer's own; "
         "answers with Experimental-Result, with both, with E pre-set; oracle: request identity + n // 1000 in {3,4,5}; "
-        "distinct = (pair, result-code family or code, session-id residue, answer shape)")
+        "plus a route stage: a real Bromelia object dispatches requests to handlers that build their answers in five styles (typed class, "
+        "generic with own identifiers, on the request's own header, a fresh header carrying the request's identifiers, one answer "
+        "object reused); the message handed to the connection worker is judged by the same oracle; "
+        "distinct = (pair, result-code family or code, session-id residue, answer shape[, style])")
 
 
 def defined_codes():
@@ -58,6 +61,11 @@ def judge(acc, request, answer, info, wit):
             key = "decorate-raises-when-E-preset"
         acc.violation(key, "decorate_answer raised %s: %s (%s)" % (type(ex).__name__, ex, info), wit)
         return
+    judge_out(acc, req_ids, req_sid, out, info, wit, before)
+
+
+def judge_out(acc, req_ids, req_sid, out, info, wit, before=None):
+    """the oracle proper: `out` is the answer as it is sent (returned by decorate_answer, or taken off the worker's send path)"""
     try:
         wire = out.dump()
         lm = R.decode(wire)[0]
@@ -86,6 +94,8 @@ def judge(acc, request, answer, info, wit):
         acc.counters["e_flag_judged"] += 1
     if lm.flags & 0x80:
         acc.violation("answer-has-r-flag", "decorated answer carries the R flag", wit)
+    if before is None:
+        return
     # other AVPs untouched and in order
     after = [(type(a).__name__, a.dump()) for a in out.avps]
     strip = lambda seq: [x for x in seq if x[0] not in ("SessionIdAVP", "ResultCodeAVP")]
@@ -169,6 +179,143 @@ def generic_case(acc, g, rc):
     judge(acc, rq, an, info, {"info": info, "header": f, "request_wire": rq.dump().hex(), "answer_wire_before": an.dump().hex()})
 
 
+ROUTE_STYLES = ["typed", "generic-own-ids", "from-request-header", "own-header-with-request-ids", "reused-answer-object"]
+
+
+def route_stage(acc, g, b):
+    """The second observation point of the statement: the message that reaches the connection worker after a route handler
+    returned it.  A real Bromelia object with in-process workers (bvm/appnode.py); handlers build their answers the ways
+    applications do - a typed class, a generic answer with identifiers of its own, an answer built on the request's own header
+    (the style of the repository's examples), a fresh header that already carries the request's identifiers, one answer object
+    used again for the next request - with Result-Codes of every family, Experimental-Results, both, and a pre-set E flag."""
+    from bvm import appnode, vsched
+    from bromelia.base import DiameterAnswer, DiameterHeader
+    from bromelia.avps import (SessionIdAVP, ResultCodeAVP, OriginHostAVP, OriginRealmAVP, ExperimentalResultAVP, VendorIdAVP,
+                               ExperimentalResultCodeAVP)
+    rng = g.rng
+    sched = vsched.Sched(seed=b["seed"], strategy="rr", max_steps=400_000, wall_s=120)
+    LIB_OF = {"S6a": "etsi_3gpp_s6a", "Gx": "etsi_3gpp_gx", "Rx": "etsi_3gpp_rx", "SWx": "etsi_3gpp_swx", "S13": "etsi_3gpp_s13"}
+    apps = rng.sample(sorted(LIB_OF), 2)
+    h = None
+    try:
+        h = appnode.AppHarness(sched, apps if rng.random() < 0.5 else ["+".join(apps)])
+        app = h.app
+        table = RD.command_table()
+        classes = {(l, c.__name__): c for l, c in discover.message_classes()}
+        current = [None]
+        reused = {}
+        routes = []
+        for name in apps:
+            lib = LIB_OF[name]
+            reqs = sorted((k, v) for k, v in table.items() if k[0] == lib and v["request"] and k in classes)
+            rng.shuffle(reqs)
+            for (lib_, cname), row in reqs[:3]:
+                rt = {"app": name, "lib": lib, "cls": classes[(lib, cname)], "answer_cls": classes.get((lib, row["pair"] + "Answer")),
+                      "app_id": row["app_id"].to_bytes(4, "big"), "code": row["code"].to_bytes(3, "big")}
+                routes.append(rt)
+
+                def handler(request, rt=rt):
+                    return current[0](request, rt)
+                handler.__name__ = "route_%s_%s" % (name, cname)
+                app.route(application_id=rt["app_id"], command_code=rt["code"])(handler)
+        for i in range(b["n"]):
+            rt = rng.choice(routes)
+            rc = rng.choice([rng.choice(b["codes"]), rng.randrange(1001, 6000), 5012, 3002, 4001, 2001, 1001])
+            shape = rng.choice(["rc", "rc", "rc", "er", "both", "e-preset"])
+            style = rng.choice(ROUTE_STYLES)
+            sid = (g.identity() + ";%d;%d" % (rng.randrange(2 ** 32), rng.randrange(2 ** 32))).encode()
+            sid = (sid + b"x" * 8)[:len(sid) + rng.randrange(4)]
+            try:
+                request = msggen.make_plan(g, rt["lib"], rt["cls"], subset="random", session_id=sid).build()
+            except BaseException as ex:
+                acc.observe("pair-construction-rejected:%s" % type(ex).__name__)
+                continue
+            if not request.has_avp("session_id_avp"):
+                continue
+
+            def produce(req, rt, rc=rc, shape=shape, style=style):
+                avps = [SessionIdAVP(b"handler;1;1") if style != "from-request-header" else req.session_id_avp]
+                if shape in ("rc", "both", "e-preset"):
+                    avps.append(ResultCodeAVP(rc))
+                if shape in ("er", "both"):
+                    avps.append(ExperimentalResultAVP([VendorIdAVP(10415), ExperimentalResultCodeAVP(rc)]))
+                avps += [OriginHostAVP(appnode.LOCAL_HOST), OriginRealmAVP(appnode.LOCAL_REALM)]
+                if style == "typed" and rt["answer_cls"] is not None:
+                    plan = msggen.make_plan(g, rt["lib"], rt["answer_cls"], subset="none")
+                    aparams = [p.name for p in msggen.params_of(rt["answer_cls"])]
+                    if "result_code" in aparams:
+                        plan.kwargs["result_code"] = rc.to_bytes(4, "big") if shape in ("rc", "both", "e-preset") else None
+                    if shape in ("er", "both"):
+                        er = [VendorIdAVP(10415), ExperimentalResultCodeAVP(rc)]
+                        if "experimental_result" in aparams:
+                            plan.kwargs["experimental_result"] = er
+                        else:
+                            plan.kwargs["zz_er"] = ExperimentalResultAVP(er)
+                    a = plan.build()
+                    if "result_code" not in aparams and shape in ("rc", "both", "e-preset"):
+                        a.append(ResultCodeAVP(rc))
+                    if not a.has_avp("session_id_avp"):
+                        a.append(SessionIdAVP(b"handler;0;0"))
+                elif style == "from-request-header":
+                    a = DiameterAnswer(header=req.header, avps=avps)
+                elif style == "own-header-with-request-ids":
+                    a = DiameterAnswer(header=DiameterHeader(command_code=req.header.command_code, application_id=req.header.application_id,
+                                                             hop_by_hop=req.header.hop_by_hop, end_to_end=req.header.end_to_end), avps=avps)
+                elif style == "reused-answer-object" and rt["cls"].__name__ in reused:
+                    # the application keeps one answer object per command and refreshes its Result-Code for every request
+                    a = reused[rt["cls"].__name__]
+                    for nm in ("result_code_avp", "experimental_result_avp"):
+                        if a.has_avp(nm):
+                            a.pop(nm)
+                    for x in avps[1:-2]:
+                        a.append(x)
+                else:
+                    a = DiameterAnswer(command_code=rt["code"], application_id=rt["app_id"], avps=avps)
+                    if style == "reused-answer-object":
+                        reused[rt["cls"].__name__] = a
+                if shape == "e-preset" and not a.header.is_error():
+                    a.header.set_error_bit(True)
+                return a
+            current[0] = produce
+            before = len(h.sent())
+            thr = app.create_message_thread(request)
+            finished = sched.run_until(lambda: thr.done, 10.0, "dispatch")
+            sched.run_until(lambda: False, 0.01, "drain")
+            new = [m for _, m in h.sent()[before:]]
+            acc.evaluations += 1
+            acc.counters["routed_requests"] += 1
+            info = {"pair": "%s.%s" % (rt["lib"], rt["cls"].__name__), "rc": rc if shape in ("rc", "both", "e-preset") else None, "er": shape in ("er", "both"),
+                    "shape": shape, "style": style, "stage": "route"}
+            if shape == "e-preset":
+                info["e_preset"] = True
+            wit = {"info": info, "request_wire": request.dump().hex()[:600], "apps": apps}
+            acc.sigs.add(harness.sig_hash("route/%s/%s/%s/f%s" % (info["pair"], style, shape, rc // 1000 if rc < 10000 else "big")))
+            if not finished or len(new) != 1:
+                # how many answers leave is C13's question; here it is only noted
+                acc.observe("route-stage:%d-messages-for-one-request:%s" % (len(new), style))
+                if sched.deaths:
+                    d = sched.deaths[-1]
+                    acc.violation("route-handler-answer-kills-dispatch:%s" % d["type"], "style %s shape %s: %s" % (style, shape, d["traceback"][-300:]), wit)
+                    return
+                continue
+            req_ids = (request.header.get_application_id(), request.header.get_hop_by_hop(), request.header.get_end_to_end())
+            nv = len(acc.violations)
+            judge_out(acc, req_ids, sid, new[0], info, wit)
+            acc.counters["routed_answers_judged"] += 1
+            acc.counters["routed_style_%s" % style] += 1
+            if len(acc.violations) > nv:
+                for v in acc.violations[nv:]:
+                    v["key"] = "routed:" + v["key"]
+    except vsched.DeadlockError as ex:
+        acc.violation("route-stage-deadlock", "%s" % ex, {"batch": b})
+    except (vsched.WallClock, vsched.StepBudget) as ex:
+        acc.inconclusive.append("route stage: %s (%r)" % (ex, b))
+    finally:
+        if h is not None:
+            h.cleanup()
+        sched.shutdown()
+
+
 def run_batch(b):
     acc = harness.Acc()
     if b.get("real"):
@@ -195,6 +342,9 @@ def run_batch(b):
             for _ in range(b["nrand"]):
                 rc = r.choice([r.randrange(2 ** 32), r.randrange(1000, 6000), r.randrange(0, 70000)])
                 one_case(acc, g, lib, rq, an, rc, r.choice(["rc", "rc", "er", "both", "e-preset"]), r.choice([0, 9, 10, 11, 12, 130]))
+    elif b["kind"] == "route":
+        b = dict(b, codes=defined_codes())
+        route_stage(acc, g, b)
     elif b["kind"] == "generic":
         for _ in range(b["n"]):
             generic_case(acc, g, r.choice([r.randrange(2 ** 32), r.randrange(1000, 6000), 2001, 5012, 3008, 4100]))
@@ -213,6 +363,8 @@ def main(tier, seed):
         batches.append({"kind": "pairs", "i": i, "m": m, "nrand": 20 if q else 12000, "seed": seed * 31337 + 100 + i})
     for i in range(2 if q else 48):
         batches.append({"kind": "generic", "n": 3000 if q else 20000, "seed": seed * 31337 + 200 + i})
+    for i in range(8 if q else 200):
+        batches.append({"kind": "route", "n": 60 if q else 300, "seed": seed * 31337 + 300 + i})
     for i in range(3 if q else 40):
         # one execution per worker process: Bromelia.run() leaves a Manager and a worker process behind that a second run in the
         # same interpreter cannot share
@@ -221,8 +373,8 @@ def main(tier, seed):
     return harness.finish(PROP, tier, seed, "exploration", acc, RULE,
                           ["multiples of 1000 and answers carrying both Result-Code and Experimental-Result are not judged for the E flag",
                            "an answer without Session-Id for a request that has one makes decorate_answer raise AttributeError: observed, not judged (the statement does not cover it)",
-                           "the message placed on the worker's send queue is observed by C13 through the same function"],
-                          t0, require_counters=("decorate_calls", "e_flag_judged", "real_loopback_ok"))
+                           "the message that reaches the connection worker is judged with the same oracle in the route stage (real Bromelia object, in-process workers, handlers building their answers in five styles) and on the real loopback"],
+                          t0, require_counters=("decorate_calls", "e_flag_judged", "routed_answers_judged", "real_loopback_ok"))
 
 
 def replay(w):
